@@ -429,6 +429,18 @@ def replay_script(case, variant="compiled", model=None):
         problems.append(("C08", "labels", f"labels_ {model.labels_.tolist()}; specification {case['labels']} (leaf -> cluster {case['final']['clOf']})"))
     if [int(v) for v in model.leaves_] != case["final"]["leafOf"]:
         problems.append(("C09", "leaves", f"leaves_ {model.leaves_.tolist()}; specification {case['final']['leafOf']}"))
+    # the Tree object's own interface (spec: RouteFrom, Len(tree), depth fields)
+    if len(t) != case["nnodes"] or int(t.n_nodes) != case["nnodes"]:
+        problems.append(("C09", "tree-len", f"len(tree_) = {len(t)}, n_nodes = {t.n_nodes}; specification {case['nnodes']} nodes"))
+    elif got == want:
+        if int(t.get_depth()) != case["height"] or [int(t.get_depth(nd)) for nd in range(case["nnodes"])] != want["depth"]:
+            problems.append(("C09", "tree-depth", f"get_depth() = {t.get_depth()}, per node {[int(t.get_depth(nd)) for nd in range(case['nnodes'])]}; "
+                                                  f"specification height {case['height']}, depths {want['depth']}"))
+        for nd in range(case["nnodes"]):
+            sub = [int(v) for v in t.predict(X, node=nd)]
+            if sub != case["routeFrom"][nd]:
+                problems.append(("C09", "route-from-node", f"tree_.predict(X, node={nd}) = {sub}; specification RouteFrom = {case['routeFrom'][nd]}"))
+                break
     pred = [int(v) for v in model.predict(X)]
     if pred != case["labels"]:
         problems.append(("C09", "routing", f"predict(X) {pred}; specification {case['labels']}"))
